@@ -604,6 +604,44 @@ def c16(report):
                            "exact rational"]
 
 
+# ---------------------------------------------------------------------------
+# several bandits in one interpreter, several interpreters (Multi.tla)
+def c04(report):
+    from harness import multi, tlc
+    from harness.common import ROOT
+    report.nontrivial_rule = ("(policy combination, label type, interleaving) triples executed in-process and compared with the "
+                              "solo run; plus fresh interpreters under different PYTHONHASHSEED")
+    consts = dict(ScriptA=list(multi.SCRIPT_A), ScriptB=list(multi.SCRIPT_B), Dev=set())
+    result = tlc.run("Multi", consts, invariants=["Inv_C04_Isolation", "EmitDone"], view=None, constraint=None, workers=1,
+                     timeout=900)
+    if result.violated:
+        raise Machinery("Multi.tla: %s violated in the clean model" % result.violated)
+    report.add_tlc("Multi/interleavings", result, ["Inv_C04_Isolation"], note="all interleavings of the observed script with the interferer")
+    neg = tlc.run("Multi", dict(consts, Dev={"ReadsShared"}), invariants=["Inv_C04_Isolation"], view=None, constraint=None,
+                  workers=4, timeout=300)
+    report.negatives.append({"deviation": "ReadsShared", "module": "Multi", "tlc_reported": neg.violated, "ok": neg.violated is not None})
+    if neg.violated is None:
+        raise Machinery("Multi deviation ReadsShared produced no counterexample")
+    scheds = [e["sched"] for e in result.edges]
+    rnd = __import__("random").Random(report.seed)
+    if report.tier != "thorough":
+        rnd.shuffle(scheds)
+        scheds = scheds[:60]
+    findings, counters = [], {}
+    multi.in_process(scheds, report.tier, report.seed, findings, counters)
+    multi.across_processes(report.tier, report.seed, findings, counters, ROOT)
+    report.findings += findings
+    for k, v in counters.items():
+        report.count("multi." + k, v)
+    report.replayed += counters.get("schedules", 0)
+    report.evaluations = counters.get("schedules", 0) + counters.get("process_runs", 0)
+    report.nontrivial = set(range(counters.get("schedules", 0)))
+    report.samples += [{"engine": "Multi.tla interleaving executed on real objects", "schedule": "".join(s),
+                        "scriptA": multi.SCRIPT_A, "scriptB": multi.SCRIPT_B} for s in scheds[:3]]
+    report.assumptions += ["BLAS/OpenMP threads pinned to 1 (the property assumes it)",
+                           "the interferer also draws from and re-seeds numpy's and Python's global generators"]
+
+
 def _nontrivial_from_counts(report, key=None):
     # distinct non-trivial cases are counted by the replay engine per job (distinct spec states / edges)
     n = report.coverage.get(key, 0) if key else report.coverage.get("cf.states", 0)
@@ -611,7 +649,7 @@ def _nontrivial_from_counts(report, key=None):
     report.evaluations = report.replayed
 
 
-CHECKS = {"C01": c01, "C02": c02, "C03": c03, "C05": c05, "C11": c11, "C12": c12, "C06": c06, "C07": c07, "C08": c08, "C09": c09, "C10": c10, "C13": c13, "C14": c14, "C15": c15, "C16": c16,
+CHECKS = {"C01": c01, "C02": c02, "C03": c03, "C04": c04, "C05": c05, "C11": c11, "C12": c12, "C06": c06, "C07": c07, "C08": c08, "C09": c09, "C10": c10, "C13": c13, "C14": c14, "C15": c15, "C16": c16,
           "C17": c17, "C19": c19}
 
 
